@@ -128,7 +128,7 @@ def gen_matrix(rng, C, **ft):
         if isfd and isj and g("fd_j1939_exclusive", False):
             isj = False   # DBC: VFrameFormat carries one value per frame, a frame is CAN FD or J1939, not both
         if g("len_choices", None):
-            L = rng.choice(g("len_choices"))   # C19: any frame length the caller lists (1..64), independent of is_fd
+            L = rng.choice(g("len_choices", None))   # C19: any frame length the caller lists (1..64), independent of is_fd
         elif isfd and max_len > 8:
             L = rng.choice([8, 12, 16, 20, 24, 32, 48, 64])
         else:
